@@ -4,6 +4,7 @@ From Coq Require Import List NArith ZArith Bool String.
 Import ListNotations.
 From JR Require Import Json Handle Handle_Proofs Frame Frame_Proofs.
 From JRGen Require Extracted.
+From JR Require Skeletons.
 
 (* the guards the crash-freedom proof relies on are in /repo's source right now: every params[i] of the three
    built-in methods is preceded by a length check that returns, and the cancel id goes through normalizeID
@@ -72,6 +73,16 @@ Theorem c10_refuted_without_guards :
   exec_frame no_guards t (bs "{""method"":""xrpc.ch.val"",""params"":[5]}") = ECrash.
 Proof. exact refuted_without_guards. Qed.
 
+(* the functions this property's model is an abstraction of still have the control / locking / shared-state skeleton the
+   model was written against (Skeletons.v, by hand; Extracted.v, regenerated from /repo) *)
+Theorem c10_code_skeletons :
+  JRGen.Extracted.effects_readFrame = JR.Skeletons.readFrame /\
+  JRGen.Extracted.effects_handleFrame = JR.Skeletons.handleFrame /\
+  JRGen.Extracted.effects_handleReader = JR.Skeletons.handleReader /\
+  JRGen.Extracted.effects_nextMessage = JR.Skeletons.nextMessage.
+Proof. repeat split; reflexivity. Qed.
+
+Print Assumptions c10_code_skeletons.
 Print Assumptions c10_source_guards.
 Print Assumptions c10_no_crash.
 Print Assumptions c10_no_crash_sequence.
